@@ -55,15 +55,31 @@ type vfCallLogger interface{ vfLogCall(vfCall) }
 
 // optional: the connection a transport returned is handed to the relay; its first Read that returns
 // data is what PrefixConn (io.MultiReader(buffered bytes, live connection)) serves first
-type vfRelayLogger interface{ vfLogRelayRead(b []byte) }
+type vfRelayLogger interface {
+	vfLogRelayRead(b []byte)
+	vfLogRelayStart() // the relay makes its first Read or Write call on the connection
+}
 
 type vfRelayConn struct {
 	net.Conn
-	owner vfRelayLogger
-	seen  int32
+	owner   vfRelayLogger
+	seen    int32
+	started int32
+}
+
+func (r *vfRelayConn) start() {
+	if atomic.CompareAndSwapInt32(&r.started, 0, 1) {
+		r.owner.vfLogRelayStart()
+	}
+}
+
+func (r *vfRelayConn) Write(p []byte) (int, error) {
+	r.start()
+	return r.Conn.Write(p)
 }
 
 func (r *vfRelayConn) Read(p []byte) (int, error) {
+	r.start()
 	n, err := r.Conn.Read(p)
 	if n > 0 && atomic.CompareAndSwapInt32(&r.seen, 0, 1) {
 		r.owner.vfLogRelayRead(p[:n])
@@ -121,18 +137,22 @@ func (r vfRecT) WrapConnection(data *bytes.Buffer, c net.Conn, ip net.IP, rm tra
 type vfStation struct {
 	rm      *cj.RegistrationManager
 	cm      *connManager
-	priv    [32]byte
+	priv    [32]byte // first station key (kept for the callers that need one)
 	pub     [32]byte
+	privs   [][32]byte // all station keys, in the order the prefix transport tries them
+	pubs    [][32]byte
+	seq     int64 // order of MarkActive hooks and relay I/O calls
 	prefixT *prefix.Transport
 	mu      sync.Mutex
 	updates map[*cj.DecoyRegistration]int
+	firstUpdate map[*cj.DecoyRegistration]int64
 	news    map[*cj.DecoyRegistration]int
 	ipCtr   uint32
 }
 
 func vfNewStation() (*vfStation, error) {
 	os.Setenv("PHANTOM_SUBNET_LOCATION", conjurepath.Root+"/internal/test_assets/phantom_subnets.toml")
-	s := &vfStation{updates: map[*cj.DecoyRegistration]int{}, news: map[*cj.DecoyRegistration]int{}}
+	s := &vfStation{firstUpdate: map[*cj.DecoyRegistration]int64{}, updates: map[*cj.DecoyRegistration]int{}, news: map[*cj.DecoyRegistration]int{}}
 	if _, err := rand.Read(s.priv[:]); err != nil {
 		return nil, err
 	}
@@ -140,6 +160,18 @@ func vfNewStation() (*vfStation, error) {
 	s.priv[31] &= 127
 	s.priv[31] |= 64
 	curve25519.ScalarBaseMult(&s.pub, &s.priv)
+	s.privs, s.pubs = [][32]byte{s.priv}, [][32]byte{s.pub}
+	for i := 0; i < 2; i++ { // key rotation: the station holds several private keys
+		var k, pk [32]byte
+		if _, err := rand.Read(k[:]); err != nil {
+			return nil, err
+		}
+		k[0] &= 248
+		k[31] &= 127
+		k[31] |= 64
+		curve25519.ScalarBaseMult(&pk, &k)
+		s.privs, s.pubs = append(s.privs, k), append(s.pubs, pk)
+	}
 	s.rm = cj.NewRegistrationManager(&cj.RegConfig{})
 	if s.rm == nil {
 		return nil, fmt.Errorf("NewRegistrationManager returned nil")
@@ -147,8 +179,16 @@ func vfNewStation() (*vfStation, error) {
 	s.rm.GeoIP = vfGeo{}
 	s.rm.VerifSetDetectorHooks(
 		func(d *cj.DecoyRegistration) { s.mu.Lock(); s.news[d]++; s.mu.Unlock() },
-		func(d *cj.DecoyRegistration) { s.mu.Lock(); s.updates[d]++; s.mu.Unlock() })
-	pt, err := prefix.Default([][32]byte{s.priv})
+		func(d *cj.DecoyRegistration) {
+			n := atomic.AddInt64(&s.seq, 1)
+			s.mu.Lock()
+			s.updates[d]++
+			if _, ok := s.firstUpdate[d]; !ok {
+				s.firstUpdate[d] = n
+			}
+			s.mu.Unlock()
+		})
+	pt, err := prefix.Default(s.privs)
 	if err != nil {
 		return nil, err
 	}
@@ -164,6 +204,12 @@ func vfNewStation() (*vfStation, error) {
 	}
 	s.cm = newConnManager(nil)
 	return s, nil
+}
+
+func (s *vfStation) firstUpdateSeq(d *cj.DecoyRegistration) int64 {
+	s.mu.Lock()
+	defer s.mu.Unlock()
+	return s.firstUpdate[d]
 }
 
 func (s *vfStation) updatesOf(d *cj.DecoyRegistration) int {
@@ -420,7 +466,8 @@ func (r *vfRecConn) Read([]byte) (int, error) { return 0, io.EOF }
 
 // vfFlight runs the real client transport against a recording connection and returns the bytes it
 // writes as its first flight (one entry per Write) together with the parameters it registers with.
-func vfFlight(s *vfStation, transport string, prefixID, flush int32, randPort bool, secret []byte) (writes [][]byte, params proto.Message, err error) {
+func vfFlight(s *vfStation, transport string, prefixID, flush int32, randPort bool, secret []byte, key int) (writes [][]byte, params proto.Message, err error) {
+	pub := s.pubs[key%len(s.pubs)]
 	tt := vfTT(transport)
 	ckeys, err := core.GenSharedKeys(uint(core.CurrentClientLibraryVersion()), secret, tt)
 	if err != nil {
@@ -433,7 +480,7 @@ func vfFlight(s *vfStation, transport string, prefixID, flush int32, randPort bo
 		ct.SetParams(&pb.GenericTransportParams{RandomizeDstPort: proto.Bool(randPort)})
 		ct.Prepare(context.Background(), nil)
 		params, _ = ct.GetParams()
-		ct.PrepareKeys(s.pub, secret, ckeys.TransportReader)
+		ct.PrepareKeys(pub, secret, ckeys.TransportReader)
 		_, err = ct.WrapConn(rec)
 	case "prefix":
 		ct := &prefix.ClientTransport{}
@@ -442,14 +489,14 @@ func vfFlight(s *vfStation, transport string, prefixID, flush int32, randPort bo
 		}
 		ct.Prepare(context.Background(), nil)
 		params, _ = ct.GetParams()
-		ct.PrepareKeys(s.pub, secret, ckeys.TransportReader)
+		ct.PrepareKeys(pub, secret, ckeys.TransportReader)
 		_, err = ct.WrapConn(rec)
 	case "obfs4":
 		ct := &obfs4.ClientTransport{}
 		ct.SetParams(&pb.GenericTransportParams{RandomizeDstPort: proto.Bool(randPort)})
 		ct.Prepare(context.Background(), nil)
 		params, _ = ct.GetParams()
-		if err = ct.PrepareKeys(s.pub, secret, ckeys.TransportReader); err != nil {
+		if err = ct.PrepareKeys(pub, secret, ckeys.TransportReader); err != nil {
 			return
 		}
 		ct.WrapConn(rec) // fails after writing the handshake: nobody answers
